@@ -1415,6 +1415,51 @@ fn harvest_litmus(rounds: u64) {
     if l > 0 {
         out::viol("C05/litmus/page-left-clean-although-the-copy-misses-the-write", jobj! {"rounds" => rounds, "lost_writes" => l, "first_round" => first.load(O::Relaxed)});
     }
+    // CONTROL (harness-side, no library code): the same protocol with a marker that SKIPS the
+    // read-modify-write when the bit already reads as set (relaxed load) - the weakened form a
+    // "test before test-and-set" optimisation would have. Shows how often this machine, under this
+    // load, loses a write with it; the litmus above is only informative if this is not zero.
+    {
+        static DATA: A64 = A64::new(0);
+        static PAD: [A64; 16] = [const { A64::new(0) }; 16];
+        static BIT: A64 = A64::new(0);
+        let _ = &PAD;
+        let crounds = (rounds / 3).max(1);
+        let phase = std::sync::Arc::new(A64::new(0));
+        let copied = std::sync::Arc::new(A64::new(0));
+        let (p2, c2) = (phase.clone(), copied.clone());
+        let h = std::thread::spawn(move || {
+            for r in 1..=crounds {
+                while p2.load(O::Acquire) != 2 * r - 1 {
+                    std::hint::spin_loop();
+                }
+                BIT.fetch_and(0, O::SeqCst);
+                c2.store(DATA.load(O::Relaxed), O::Release);
+                p2.store(2 * r, O::Release);
+            }
+        });
+        let mut seen = 0u64;
+        for r in 1..=crounds {
+            BIT.store(1, O::SeqCst);
+            phase.store(2 * r - 1, O::Release);
+            DATA.store(r, O::Relaxed);
+            if BIT.load(O::Relaxed) == 0 {
+                BIT.fetch_or(1, O::SeqCst);
+            }
+            while phase.load(O::Acquire) != 2 * r {
+                std::hint::spin_loop();
+            }
+            if BIT.load(O::SeqCst) == 0 && copied.load(O::Acquire) != r {
+                seen += 1;
+            }
+        }
+        let _ = h.join();
+        out::count("harvest_litmus_control_rounds", crounds as i128);
+        out::count("harvest_litmus_control_lost_writes", seen as i128);
+        if seen == 0 {
+            out::note("harvest-litmus-control-lost-nothing", jobj! {"control_rounds" => crounds, "meaning" => "the weakened control never lost a write in this run: the harvest litmus was not discriminating here"});
+        }
+    }
     out::count("harvest_litmus_rounds", rounds as i128);
     out::key("litmus|write-then-mark-vs-clear-then-copy", true);
     out::eval(rounds);
